@@ -86,9 +86,13 @@ impl OligoCgrComputer {
 
                 // Define a closure to handle buffer processing
                 let mut process_buffer = |buffer: &Vec<Sequence>| {
+                    #[cfg(kmertools_verif)]
+                    ktio::verif::scope_begin("kcgr.batch", buffer.len(), self.threads);
                     let result = buffer
                         .par_iter()
                         .map(|seq| {
+                            #[cfg(kmertools_verif)]
+                            let _verif_item = ktio::verif::item((seq.n - buffer[0].n) as u64);
                             let kvec = self.vectorise_one(&seq.seq).unwrap();
                             let kvec_str: Vec<String> = kvec
                                 .iter()
